@@ -132,13 +132,130 @@ fn mk<'a>(id: &'a str, batch: &'a str, seed: u64, tier: Tier, runs: u64, known: 
 pub fn run_c05(tier: Tier, seed: u64, known: &KnownFindings) -> CheckReport {
     let w = TemplateWorld { prop: "C05", world_name: "templates-c05", kinds: all_kinds(), penalty: 0.4, faults: FaultMix::None, max_iters: (12, 40), evaluations_term: true, log: true, key_steps: &[] };
     let b = run_batch(&w, &mk("C05", "templates-sequential", seed, tier, tier.pick(8_000, 400_000), known));
-    report("C05", tier, seed, "one case = (template, swarm-style valid parameters incl. boundary values, problem instance with or without penalty regions, termination, seed); after EVERY child execution of every sequential block, at every nesting level, every evaluated individual in the population stack (all scope levels), best-so-far, elitist archive, personal bests, global best and molecule memories must carry exactly F(solution) (bit equality); non-trivial = at least one step executed; distinct = distinct (component-kind sequence, objective calls, result) fingerprints", vec![b], &[])
+    let bp = run_batch(&crate::checks::c08::SeqVsPar { prop: "C05", name: "seq-vs-par-c05" }, &mk("C05", "templates-parallel-evaluator", seed, tier, tier.pick(600, 40_000), known));
+    let mut r = report("C05", tier, seed, "one case = (template, swarm-style valid parameters incl. boundary values, problem instance with or without penalty regions, termination, seed); after EVERY child execution of every sequential block, at every nesting level, every evaluated individual in the population stack (all scope levels), best-so-far, elitist archive, personal bests, global best and molecule memories must carry exactly F(solution) (bit equality); non-trivial = at least one step executed; distinct = distinct (component-kind sequence, objective calls, result, final state) fingerprints. templates-parallel-evaluator: the same audit while objectives are written by the simulated workers of problems::evaluate::Parallel under seeded schedules", vec![b, bp], &["problems::evaluate::Parallel on the simulated pool (parallel batch)"]);
+    r.stubbed_components.push("rayon (simulated worker pool on shuttle threads) in the parallel batch".into());
+    r
 }
 
 pub fn run_c06(tier: Tier, seed: u64, known: &KnownFindings) -> CheckReport {
     let w = TemplateWorld { prop: "C06", world_name: "templates-c06", kinds: all_kinds(), penalty: 0.3, faults: FaultMix::Evaluator, max_iters: (12, 40), evaluations_term: true, log: false, key_steps: &["PopulationEvaluator"] };
     let b = run_batch(&w, &mk("C06", "templates-sequential", seed, tier, tier.pick(8_000, 400_000), known));
-    report("C06", tier, seed, "one case as in C05 plus the faults no-evaluator / wrong-evaluator-id; at every evaluation step: one objective call per individual of the pre-step population (multiset equality), order and solutions unchanged, all evaluated, counter advanced by the population size (0 for empty population / empty stack); at every step of any component: counter delta == objective calls in the step; at run end: reported evaluations == objective calls, budget overshoot smaller than the last pass; missing evaluator: Err, zero calls, zero steps; non-trivial = at least one evaluation step executed", vec![b], &[])
+    let bp = run_batch(&crate::checks::c08::SeqVsPar { prop: "C06", name: "seq-vs-par-c06" }, &mk("C06", "templates-parallel-evaluator", seed, tier, tier.pick(800, 60_000), known));
+    let bi = run_batch(&EvalIds, &mk("C06", "evaluator-identifiers", seed, tier, tier.pick(3_000, 100_000), known));
+    let mut r = report("C06", tier, seed, "one case as in C05 plus the faults no-evaluator / wrong-evaluator-id; at every evaluation step: one objective call per individual of the pre-step population (multiset equality), order and solutions unchanged, all evaluated, counter advanced by the population size (0 for empty population / empty stack); at every step of any component: counter delta == objective calls in the step; at run end: reported evaluations == objective calls, budget overshoot smaller than the last pass; missing evaluator: Err, zero calls, zero steps; non-trivial = at least one evaluation step executed. templates-parallel-evaluator: identical monitors with Parallel on 1..8 simulated workers under seeded schedules (exactly once, count exact, under every explored interleaving). evaluator-identifiers: a configuration that evaluates through identifier Global/A/B with evaluators registered under a subset of them", vec![b, bp, bi], &["problems::evaluate::Parallel on the simulated pool (parallel batch)"]);
+    r.stubbed_components.push("rayon (simulated worker pool on shuttle threads) in the parallel batch".into());
+    r
+}
+
+// ---------------------------------------------------------------------------------------------
+// evaluator identifiers
+
+#[derive(Clone, Debug, serde::Serialize, serde::Deserialize)]
+pub struct IdCase {
+    /// 0 = Global, 1 = A, 2 = B
+    pub requested: u8,
+    pub registered: Vec<u8>,
+    pub population: u32,
+    pub iterations: u32,
+    pub seed: u64,
+    pub problem: crate::tw::problems::RealSpec,
+}
+
+pub struct EvalIds;
+
+fn id_config<I: mahf::identifier::Identifier>(c: &IdCase, cond: Box<dyn mahf::Condition<crate::tw::problems::RealP>>) -> mahf::Configuration<crate::tw::problems::RealP> {
+    use mahf::components::{boundary, initialization, mutation};
+    mahf::Configuration::builder()
+        .do_(initialization::RandomSpread::new(c.population))
+        .evaluate_with::<I>()
+        .update_best_individual()
+        .while_(cond, |b| b.do_(mutation::NormalMutation::new_dev(0.1)).do_(boundary::Saturation::new()).evaluate_with::<I>().update_best_individual())
+        .build()
+}
+
+impl World for EvalIds {
+    type Case = IdCase;
+    fn name(&self) -> &'static str {
+        "evaluator-identifiers"
+    }
+    fn generate(&self, run_seed: u64, _tier: Tier) -> IdCase {
+        let mut g = rng::stream(run_seed, "workload");
+        let mut registered = Vec::new();
+        for id in 0..3u8 {
+            if g.chance(0.5) {
+                registered.push(id);
+            }
+        }
+        IdCase { requested: g.below(3) as u8, registered, population: g.below(6) as u32, iterations: g.below(5) as u32, seed: g.u64(), problem: crate::tw::problems::gen_real(&mut g, false, 3) }
+    }
+    fn execute(&self, c: &IdCase) -> Outcome<IdCase> {
+        use crate::tw::problems::*;
+        use mahf::identifier::{Global, A, B};
+        use mahf::problems::Sequential;
+        let mut out = Outcome::new();
+        out.evaluations = 1;
+        let problem = RealP::new(c.problem.clone());
+        let (cond, _, _) = termination::<RealP>(Term::Iterations(c.iterations));
+        let config = match c.requested {
+            0 => id_config::<Global>(c, cond),
+            1 => id_config::<A>(c, cond),
+            _ => id_config::<B>(c, cond),
+        };
+        let tcase = Arc::new(TCase {
+            kind: Kind::RealRs,
+            params: Default::default(),
+            problem: ProblemSpec::Real(c.problem.clone()),
+            term: Term::Iterations(c.iterations),
+            seed: c.seed,
+            evaluator: EvalMode::Sequential,
+            fault: TFault::None,
+            log: false,
+            clone_config: false,
+        });
+        let data = Arc::new(std::sync::Mutex::new(crate::tw::observer::ObsData::default()));
+        let mut state: mahf::State<RealP> = mahf::State::new();
+        state.insert(mahf::logging::Log::new());
+        state.insert(mahf::state::common::Populations::<RealP>::new());
+        state.insert(mahf::Random::with_rng::<crate::rng::SimRng>(c.seed));
+        for id in &c.registered {
+            match id {
+                0 => state.insert_evaluator_as::<Global>(Sequential::<RealP>::new()),
+                1 => state.insert_evaluator_as::<A>(Sequential::<RealP>::new()),
+                _ => state.insert_evaluator_as::<B>(Sequential::<RealP>::new()),
+            }
+        }
+        state.insert(mahf::verif::ObserverSlot::new(crate::tw::observer::Obs::<RealP>::new(tcase, data.clone())));
+        let r = guarded(|| config.run(&problem, &mut state));
+        let d = std::mem::take(&mut *data.lock().unwrap());
+        out.steps = d.steps + problem.instr.n_calls() as u64;
+        let present = c.registered.contains(&c.requested);
+        bump(&mut out.counters, if present { "probe:requested identifier registered" } else { "fault:wrong-evaluator-id" }, 1);
+        let mut fp = crate::rng::Fp::new();
+        fp.str(&format!("{}{:?}{}{}", c.requested, c.registered, c.population, c.iterations));
+        out.fingerprints.push(fp.0);
+        let v = match (&r, present) {
+            (Err(p), _) => Some(Violation::new("evaluator-identifier-panic", format!("requested {} registered {:?}: panicked: {p}", c.requested, c.registered))),
+            (Ok(Ok(())), false) => Some(Violation::new("missing-evaluator-not-reported", format!("requested identifier {} with evaluators registered under {:?}: the run succeeded ({} objective calls)", c.requested, c.registered, problem.instr.n_calls()))),
+            (Ok(Err(_)), false) if problem.instr.n_calls() != 0 || d.step_index != 0 => {
+                Some(Violation::new("missing-evaluator-reported-late", format!("requested identifier {} with {:?} registered: failed only after {} steps and {} objective calls", c.requested, c.registered, d.step_index, problem.instr.n_calls())))
+            }
+            (Ok(Err(e)), true) => Some(Violation::new("registered-evaluator-refused", format!("requested identifier {} is registered ({:?}) but the run failed: {e:#}", c.requested, c.registered))),
+            (Ok(Ok(())), true) => d.violations.iter().find(|(p, _)| *p == "C06").map(|(_, v)| v.clone()).or_else(|| {
+                let evals = state.try_get_value::<mahf::state::common::Evaluations>().ok();
+                if evals.map(|e| e as usize) != Some(problem.instr.n_calls()) {
+                    Some(Violation::new("run-end-evaluations-vs-calls identifiers", format!("reported {evals:?} evaluations, {} objective calls", problem.instr.n_calls())))
+                } else {
+                    None
+                }
+            }),
+            _ => None,
+        };
+        if let Some(v) = v {
+            out.violation = Some((v, c.clone()));
+        }
+        out
+    }
 }
 
 pub fn run_c07(tier: Tier, seed: u64, known: &KnownFindings) -> CheckReport {
